@@ -47,6 +47,23 @@ def gen_tree(g, kind, depth=2, null_p=0.1):
     return ("bin", op, gen_tree(g, kind, depth - 1, null_p), gen_tree(g, kind, depth - 1, null_p))
 
 
+def repeat_operands(r, t, p=0.15):
+    """the same tree with, here and there, an operand repeated (as an equal copy, possibly with its own operands
+    commuted): `a ^ a`, `(a & b) ^ (b & a)`, `a | b | a` - combinations are not idempotent for xor"""
+    if t[0] != "bin":
+        return t
+    _, op, a, b = t
+    a, b = repeat_operands(r, a, p), repeat_operands(r, b, p)
+    if r.random() < p:
+        src = a
+        if src[0] == "bin" and r.random() < 0.5:
+            src = ("bin", src[1], src[3], src[2])
+        elif a[0] == "bin" and r.random() < 0.5:
+            src = a[2]                      # a op b op a, flattened by the spec writer
+        b = src
+    return ("bin", op, a, b)
+
+
 def build_tree(t):
     if t[0] == "null":
         return C.NullCondition()
